@@ -793,24 +793,10 @@ func (x *Exec) Rename(fd Ref, fn string, td Ref, tn string) error {
 	return nil
 }
 
-// RenameIsKnownFinding: a directory moved into its own subtree (KF3: accepted by the server, detaches a cycle).
-// (Moving a directory to another parent used to be KF2; that was repaired and is generated like any other rename.)
+// RenameIsKnownFinding: no rename is excluded any more.  (Moving a directory to another parent, KF2, and into its
+// own subtree, KF3, were known findings and have been repaired; the reference refuses the latter.)  Kept so that
+// the generators read the same.
 func (x *Exec) RenameIsKnownFinding(fd *MNode, fn string, td *MNode) bool {
-	if fd == nil || td == nil || !fd.IsDir() || !td.IsDir() {
-		return false
-	}
-	src := fd.Children[fn]
-	if src == nil || !src.IsDir() || fd == td {
-		return false
-	}
-	for n, i := td, 0; n != nil && i < 64; n, i = n.Parent, i+1 {
-		if n == src {
-			return true
-		}
-		if n.Parent == n {
-			break
-		}
-	}
 	return false
 }
 
